@@ -29,10 +29,14 @@ res["tests"] = t.stdout.strip()
 res["tests_ok"] = "558 passed" in t.stdout and "68 failed" in t.stdout
 d = sh(f"cd {seed} && PYTHONPATH={wt} timeout 600 /venv/bin/python demo.py")
 res["demo_fails_with_change"] = d.returncode != 0
+import tempfile, shutil
+vcopy = tempfile.mkdtemp(prefix="seedeval_", dir="/tmp")      # a scratch copy of /verif: evidence/ and .work/ of /verif stay untouched
+sh(f"rsync -a --exclude .work --exclude .git --exclude evidence /verif/ {vcopy}/ && mkdir -p {vcopy}/.work {vcopy}/evidence")
 for c in checks:
     t0 = time.time()
-    k = sh(f"cd /verif && VERIF_REPO={wt} VERIF_SEED={os.environ.get('VERIF_SEED','0')} timeout 3000 ./check {c} --tier {tier}")
+    k = sh(f"cd {vcopy} && VERIF_REPO={wt} VERIF_SEED={os.environ.get('VERIF_SEED','0')} timeout 3000 ./check {c} --tier {tier}")
     res[f"check_{c}"] = {"exit": k.returncode, "wall_s": round(time.time() - t0), "first": next((l for l in k.stdout.splitlines() if l.startswith("  ") or "MACHINERY" in l), "")[:260]}
+shutil.rmtree(vcopy, ignore_errors=True)
 sh(f"git -C {wt} checkout -q -- . && git -C {wt} clean -fdq")
 d2 = sh(f"cd {seed} && PYTHONPATH={wt} timeout 600 /venv/bin/python demo.py")
 res["demo_passes_without_change"] = d2.returncode == 0
